@@ -34,6 +34,11 @@ CHECKS["C13"] = dict(engine="mempool-walk", cat="exploration", ref="DESIGN.md §
    text="Thousands of operations (inserts with gaps/duplicates/stale nonces, invalid-removals, block inclusions, balance and nonce moves, fee re-costing, expiry with a short TTL, bursts of >15 ready transactions followed by a drained balance) on 2-6 accounts x 3 assets; after every operation the private structure and the status of every accepted id are recorded and the oracle checks exactly-one-place, consecutive ready nonces, affordability against the balances shown, build order, stale-nonce removal and parked limits.",
    note="costs are those reported by CheckedTransaction::total_costs; callers respect the documented contract that shown nonces never decrease; cache bounds are not crossed so eviction cannot explain a missing status")
 
+CHECKS["C16"] = dict(engine="composer-bundles", cat="exploration", ref="DESIGN.md §5 C16",
+   technique="runtime monitoring: exhaustive short op words + random long ones on the real BundleFactory, recorded call results and emitted payload ids; offline exactly-once / order / size oracle with a small sequential queue model",
+   text="All words of length <=5 (quick) / <=6 (thorough) over 9 operations (pushes in 6 size classes around the maximum, pop finished, take-and-drop the next-finished handle, timer pop) for finished-queue capacities 0-2, plus random words up to length 40 for capacities 0-4; the oracle checks that accepted payload ids are emitted exactly once in acceptance order, bundle sizes recomputed from the emitted actions never exceed the maximum, and refusals are justified by size or a full queue.",
+   note="sizes are prost encoded lengths of the emitted actions; the composer's async executor loop around the factory is not driven here")
+
 def main():
     hooks = subprocess.run(["git", "-C", "/repo", "log", "--format=%h", "--grep=^verif hooks:"], capture_output=True, text=True).stdout.split()
     m = {
@@ -50,6 +55,7 @@ def main():
        {"name": "vh-merkle", "path": "harness/ext/vh-merkle", "serves_properties": ["C08"], "kind_free_text": "external harness binary on the public astria-merkle API + Miri"},
        {"name": "conductor-celestia", "path": "harness/conductor/celestia.rs", "serves_properties": ["C09"], "kind_free_text": "in-crate test-only child module of astria_conductor::celestia (feature verif)"},
        {"name": "mempool-walk", "path": "harness/seq/mempool.rs", "serves_properties": ["C13"], "kind_free_text": "in-crate test-only child module of astria_sequencer::mempool (feature verif)"},
+       {"name": "composer-bundles", "path": "harness/composer/executor.rs", "serves_properties": ["C16"], "kind_free_text": "in-crate test-only child module of astria_composer::executor (feature verif)"},
        {"name": "chainsim", "path": "harness/seq/app", "serves_properties": ["C01","C02","C03","C04","C05","C06","C07","C14","C15","C18"], "kind_free_text": "in-crate multi-node ABCI driver inside astria_sequencer::app (feature verif) + offline Python oracles"},
      ],
      "checks": [],
